@@ -1,6 +1,7 @@
 //! vh: correspondence harness.  `vh <component> <seed> <count> [args]` prints one line per case:
 //!   <input numbers>\t<implementation output numbers>\t<signature>
 //! The input numbers start with the component number understood by `mrun` (the extracted model).
+mod broadcast;
 mod codec;
 mod conn;
 mod port;
@@ -86,6 +87,7 @@ fn main() {
         "robs_vec" => robs_vec::run(seed, count, &extra, &mut out),
         "robs_map" => robs_map::run(seed, count, &extra, &mut out),
         "robs_set" => robs_set::run(seed, count, &extra, &mut out),
+        "broadcast" => broadcast::run(seed, count, &extra, &mut out),
         _ => {
             eprintln!("unknown component {comp}");
             std::process::exit(2);
